@@ -22,7 +22,7 @@ def splitAt (tok : String) (l : List String) : List String × List String :=
   (l.takeWhile (· ≠ tok), (l.dropWhile (· ≠ tok)).drop 1)
 
 /-- xform.focus <createParents t|f> <path p:…> <id|del|const|wrap> STORE … ROOT <term…> VAL <term…>
-      → ok <result with every link resolved> w=<blocks written> | nil | err -/
+      → ok <result with every link resolved> w=<blocks written> | err -/
 def xformHandler : List String → Option String
   | "xform.focus" :: cp :: p :: kind :: "STORE" :: rest =>
     match parsePathArg p, parseStore (rest.length + 1) rest [] with
@@ -31,9 +31,8 @@ def xformHandler : List String → Option String
       match parseTermAll rootToks, parseTermAll valToks with
       | some root, some v =>
         match focused (mkFn kind v) modelLinkOf Spec.canon (cp == "t") 10000 [] (some root) path { store := store } with
-        | .error .nilEntry => some "nil"
-        | .error _ => some "err"
-        | .ok (none, _) => some "nil"
+        | .error _ => some "err"       -- incl. `.nilEntry`: since the repair the code refuses a nil replacement that
+        | .ok (none, _) => some "err"  -- has no container to be removed from (below created parents; the root) with an error
         | .ok (some r, st) => some s!"ok {(expandFuel st.store 1000 r).toTerm} w={st.written.length}"
       | _, _ => some "bad-term"
     | _, _ => some "bad-args"
